@@ -416,30 +416,29 @@ NonTerminals == DOMAIN Prods
 TermCount(st) == Len(SelectSeq(st, LAMBDA x : x \in Terminals))
 
 (***************************************************************************)
-(* FIRST sets (as a predicate): terminal a can begin a string derived from *)
-(* the symbol sequence st, or st derives the empty string (Nullable).      *)
-(* Used only to prune Expand; the recogniser is correct without it.        *)
-(* The grammar has no left recursion, so the recursion terminates.         *)
+(* Nullable nonterminals and FIRST sets, computed as least fixed points    *)
+(* (used only to prune Expand; the recogniser is correct without them).    *)
 (***************************************************************************)
-RECURSIVE NullableSym(_), NullableSeq(_)
-NullableSym(x) == x \in NonTerminals /\ \E rhs \in Prods[x] : NullableSeq(rhs)
-NullableSeq(st) == \A i \in 1..Len(st) : NullableSym(st[i])
+RECURSIVE NullFix(_)
+NullFix(S) ==
+  LET S2 == {x \in NonTerminals : \E rhs \in Prods[x] : \A j \in 1..Len(rhs) : rhs[j] \in S}
+  IN IF S2 = S THEN S ELSE NullFix(S2)
+NullableSet == NullFix({})
 
-RECURSIVE FirstSym(_), FirstSeq(_)
-FirstSym(x) == IF x \in Terminals THEN {x} ELSE UNION {FirstSeq(rhs) : rhs \in Prods[x]}
-FirstSeq(st) ==
-  IF st = <<>> THEN {}
-  ELSE FirstSym(st[1]) \cup (IF NullableSym(st[1]) THEN FirstSeq(Tail(st)) ELSE {})
-
-\* tables computed once (TLC evaluates a constant definition once)
-NullableTab == [x \in NonTerminals |-> NullableSym(x)]
-FirstTab    == [x \in NonTerminals |-> FirstSym(x)]
-NullSeqT(st) == \A i \in 1..Len(st) : st[i] \in NonTerminals /\ NullableTab[st[i]]
-RECURSIVE FirstSeqT(_)
-FirstSeqT(st) ==
+\* FIRST of a symbol sequence under a table F of the nonterminals' FIRST sets
+RECURSIVE FirstSeqF(_, _)
+FirstSeqF(F, st) ==
   IF st = <<>> THEN {}
   ELSE IF st[1] \in Terminals THEN {st[1]}
-  ELSE FirstTab[st[1]] \cup (IF NullableTab[st[1]] THEN FirstSeqT(Tail(st)) ELSE {})
+  ELSE F[st[1]] \cup (IF st[1] \in NullableSet THEN FirstSeqF(F, Tail(st)) ELSE {})
+RECURSIVE FirstFix(_)
+FirstFix(F) ==
+  LET F2 == [x \in NonTerminals |-> UNION {FirstSeqF(F, rhs) : rhs \in Prods[x]}]
+  IN IF F2 = F THEN F ELSE FirstFix(F2)
+FirstTab == FirstFix([x \in NonTerminals |-> {}])
+
+NullSeqT(st) == \A j \in 1..Len(st) : st[j] \in NullableSet
+FirstSeqT(st) == FirstSeqF(FirstTab, st)
 
 (***************************************************************************)
 (* The recogniser: configurations (pos, stack) over an input string of     *)
